@@ -243,6 +243,10 @@ def gen_btcdeb_interactive(rng):
     n = rng.weighted([(3, rng.range(1, 6)), (5, rng.range(6, 25)), (2, rng.range(25, 60))])
     scn["sched"] = gen_sched(rng, n)
     scn["faults"] = gen_faults(rng, len(scn["sched"]), dataset=bool(scn.get("spend")))
+    if rng.chance(12):
+        # crash / restart: the next session loads whatever this one managed to write to the history file,
+        # cut at an arbitrary byte (torn last write) - only the durable bytes survive
+        scn["restart"] = {"cut": rng.weighted([(3, -1), (5, rng.below(400)), (2, rng.below(30))]), "sched": gen_sched(rng, rng.range(1, 6))}
     if rng.chance(8):
         # argument / option mutations as workload
         scn["extra_argv"] = [rng.choice(["--select=5", "--select=-1", "--select=999999999999", "--tx=zz", "--txin=00", "--tx=0.1:00", "--tx=1,2", "--tx=:",
@@ -481,6 +485,26 @@ def evaluate(ctx, scn):
             ev.counters["probe:eof_at_continuation_prompt"] += 1
         if s.eof and s.prompt == "btcdeb> ":
             ev.counters["probe:eof_at_main_prompt"] += 1
+    if scn.get("restart") and scn.get("tool", "btcdeb") == "btcdeb":
+        hist = "".join(f.get("content", "") for f in scn.get("faults", []) if f["kind"] == "HIST_CONTENT")
+        durable = hist + "".join(d.decode(proto.L1) for (pth, d) in run.written if pth == ".btcdeb_history")
+        cut = scn["restart"]["cut"]
+        if cut >= 0:
+            durable = durable[:max(0, len(durable) - cut)] if cut < len(durable) else ""
+        s2 = dict(scn)
+        s2["sched"] = scn["restart"]["sched"]
+        s2["faults"] = [f for f in scn.get("faults", []) if not f["kind"].startswith("HIST")] + [{"kind": "HIST_CONTENT", "content": durable}]
+        w2 = world_of(s2)
+        r2 = ctx.run(w2)
+        ev.hashes.append(r2.hash())
+        before = len(ev.violations)
+        judge(ev, r2, scn)
+        for v in ev.violations[before:]:
+            v.message = "[session restarted on the history file the previous session left, %d bytes] %s" % (len(durable), v.message)
+        ev.counters["probe:restart_with_surviving_history"] += 1
+        if durable and not durable.endswith("\n"):
+            ev.counters["probe:restart_on_torn_last_line"] += 1
+        ev.counters["fault:fired_crash_restart"] += 1
     nlines = sum(1 for s in run.segs if s.line is not None)
     ev.nontrivial = nlines >= 3 or bool(fired)
     kinds = tuple((s.line or "").split(" ")[0][:12] for s in run.segs[1:])
